@@ -5,6 +5,7 @@ use serde_json::{json, Value};
 use crate::exec::Params;
 use crate::pure;
 use crate::runner::{self, goal, Found, Goal, Plan, Unit};
+use crate::scen::seq;
 use crate::sched;
 
 pub const E0_ALL: [i64; 17] = [0, 1, 2, 3, 4, 5, 6, 7, 8, 9, 10, 11, 12, 13, 14, 15, 65534];
@@ -50,6 +51,15 @@ impl B {
             for j in 0..k {
                 self.units.push(u.clone().slice(j, k));
             }
+        }
+    }
+    /// a case grid: `total` cases of one scenario, cut into chunks that workers take in parallel
+    fn add_cases(&mut self, scen: &str, p: Params, total: i64, chunk: i64) {
+        let mut from = 0;
+        while from < total {
+            let to = (from + chunk).min(total);
+            self.units.push(Unit::new(scen, p.clone(), 0).cases(from..to));
+            from = to;
         }
     }
     fn goal(&mut self, scen: &str, key: &str) {
@@ -138,11 +148,97 @@ pub fn plan(prop: &str, tier: &str) -> Option<Plan> {
             b.add("rc/ws-upgrade-vs-attempt", all, &[&[("pre", 2), ("claim", 5)], &[("pre", 3), ("claim", 5)]], bq);
             b.add("rc/ws-upgrade-vs-cascade-child", all, &[&[("age", 4), ("pre", 2), ("claim", 5)]], bq);
             b.add("rc/weak-holder", all, &[&[("claim", 5)]], if quick { 2 } else { 4 });
+            let depth = if quick { 4 } else { 6 };
+            for &e0 in (if quick { few } else { all }).iter() {
+                b.add_cases("seq/upgrade-histories", e(e0).set("depth", depth).set("claim", 5), seq::upgrade_cases(depth as usize), 1500);
+            }
+            b.goal("seq/upgrade-histories", "upgrade-some");
+            b.goal("seq/upgrade-histories", "upgrade-none");
             b.goal("rc/upgrade-vs-cascade-child", "upgrade-some");
             b.goal("rc/upgrade-vs-cascade-child", "upgrade-none");
             b.goal("rc/weak-holder", "upgrade-none");
             rule = "sequential: every history listed in the design over {last drop, round, Weak::upgrade, WeakSnapshot::upgrade}; concurrent: every schedule with at most B preemptions of the upgrade-racing programs; non-trivial = deviates from the default schedule or is a distinct sequential history";
             bounds = json!({"threads": "2-3", "preemptions": bq, "classes": sched::class_names(sched::RC), "e0": all});
+        }
+        "C04" => {
+            let e0s = if quick { few } else { all };
+            for &e0 in e0s.iter() {
+                for shape in 0..seq::SHAPES {
+                    for age in [4, 0] {
+                        if quick && age == 0 && shape != 2 {
+                            continue;
+                        }
+                        b.add_cases("seq/graphs", e(e0).set("shape", shape).set("age", age), seq::graph_cases(shape), 500);
+                    }
+                }
+            }
+            let bq = if quick { 2 } else { 4 };
+            b.add("rc/concurrent-release", all, &[&[("shape", 0)], &[("shape", 1)], &[("shape", 2)]], bq);
+            b.add("rc/dag-shared-child", all, &[&[("age", 4)], &[("age", 0)]], bq);
+            b.add("rc/last-weak-vs-destruct", all, &[&[("pre", 0)], &[("pre", 2)]], bq);
+            b.add("rc/weak-many-shares", all, &[], bq);
+            b.add("rc/bulk-shares", all, &[&[("kind", 0)], &[("kind", 1)]], bq);
+            b.goal("seq/graphs", "cascade-child-destructed");
+            b.goal("rc/concurrent-release", "cascade-child-destructed");
+            rule = "sequential: every permutation of releasing the external handles of 6 graph shapes x every placement of 0/1/4 rounds after each release x initial epochs; concurrent: every schedule with at most B preemptions of two threads releasing handles of one graph; judged by per-object lifecycle counters and emptiness after a bounded drain";
+            bounds = json!({"shapes": 6, "handles": "3-4", "rounds_after_release": [0, 1, 4], "e0": e0s, "preemptions": bq});
+        }
+        "C06" => {
+            let grid = if quick { 0 } else { 1 };
+            let res: Vec<i64> = if quick { vec![0, 1, 2, 7, 13, 14, 15] } else { (0..16).collect() };
+            for &e0 in res.iter() {
+                b.add_cases("seq/latency", e(e0).set("grid", grid), seq::latency_cases(grid), if quick { 160 } else { 256 });
+            }
+            rule = "every point of the grid n x shape {chain, balanced tree, left comb, right comb} x held-node position x link age x link construction {store, From} x epoch residue; each case drops the head and counts epoch advances until the last destructor";
+            bounds = json!({"n": if quick { seq::LAT_NS_QUICK.to_vec() } else { seq::LAT_NS.to_vec() }, "residues": res, "bound": "16 + 12*ceil(n/1024) epochs"});
+        }
+        "C08" => {
+            let depth = if quick { 3 } else { 4 };
+            let n = seq::cell_alphabet().len();
+            for &e0 in (if quick { &[0i64, 15][..] } else { &[0i64, 5, 15][..] }).iter() {
+                b.add_cases("seq/cell", e(e0), seq::seq_cases(n, depth), 1500);
+            }
+            let bq = if quick { 2 } else { 3 };
+            b.add("cell/concurrent", if quick { few } else { all }, &[&[("prog", 0)], &[("prog", 1)], &[("prog", 2)], &[("prog", 3)], &[("prog", 4)]], bq);
+            rule = "sequential: every sequence of at most d operations over a 27-letter alphabet {load, store v, swap v, compare_exchange(exp,v), compare_exchange_weak, compare_exchange_tag(exp,t), epoch advance} compared step by step with a (pointer, tag) cell model; concurrent: every schedule with at most B preemptions of 2-3 threads x 1-2 operations on one cell, each complete history checked for linearizability by brute force; counts exact at quiescence";
+            bounds = json!({"depth": depth, "alphabet": n, "preemptions": bq});
+        }
+        "C09" => {
+            let depth = if quick { 3 } else { 4 };
+            let n = seq::wcell_alphabet().len();
+            for &e0 in (if quick { &[0i64, 15][..] } else { &[0i64, 5, 15][..] }).iter() {
+                b.add_cases("seq/wcell", e(e0), seq::seq_cases(n, depth), 1500);
+            }
+            let bq = if quick { 2 } else { 3 };
+            b.add("cell/wconcurrent", if quick { few } else { all }, &[&[("prog", 0)], &[("prog", 1)], &[("prog", 2)]], bq);
+            rule = "as C08 for AtomicWeak, the expected WeakSnapshot obtained in three ways (from the cell, downgraded from a Snapshot loaded from an AtomicRc written at another epoch, taken from a Weak made from an Rc that came out of a swap)";
+            bounds = json!({"depth": depth, "alphabet": n, "preemptions": bq});
+        }
+        "C10" => {
+            let total = seq::bulk_specs().len() as i64;
+            for &e0 in (if quick { few } else { all }).iter() {
+                b.add_cases("seq/bulk", e(e0), total, 40);
+            }
+            b.add("rc/bulk-shares", all, &[&[("kind", 0), ("claim", 10)], &[("kind", 1), ("claim", 10)]], if quick { 2 } else { 4 });
+            b.add("rc/weak-many-shares", all, &[&[("claim", 10)]], if quick { 2 } else { 4 });
+            rule = "every configuration: new_many N in 0..=5; new_many_iter count in 0..=5 x consumed prefix x {drop, abort} x position of the iterator's end among the releases; weak_many N in 0..=4 x position of the receiver's release; each with and without rounds in between; plus concurrent release of the shares by two threads";
+            bounds = json!({"N": "0..=5", "count": "0..=5", "weak N": "0..=4", "configurations": total});
+        }
+        "C12" => {
+            let total = seq::decision_triples().len() as i64;
+            let mut e0s: Vec<i64> = (0..16).collect();
+            if !quick {
+                e0s.extend([65530, 65535, 65536, 4294967290, 4294967296, 1099511627776]);
+            } else {
+                e0s = vec![0, 3, 8, 13, 15, 65535];
+            }
+            for &e0 in e0s.iter() {
+                b.add_cases("seq/cascade-decision", e(e0), total, 500);
+            }
+            b.goal("seq/cascade-decision", "child-immediate");
+            b.goal("seq/cascade-decision", "child-deferred");
+            rule = "end to end: parent->child with every triple of true stamp ages (parent 3..=20, link parent..=24, child 0..=24) x initial epochs: whether the real cascade reclaims the child in the parent's pass must agree with the reference on true ages".to_string().leak();
+            bounds = json!({"triples": total, "e0": e0s});
         }
         _ => return None,
     }
